@@ -3,7 +3,7 @@
 \* first request is still in flight) on one node: a2 reads the code before a1's final update, waits for a1 on the
 \* per-client quota lock, continues from its stale copy, re-claims and creates a second mapping.
 \* EXPECTED RESULT: TLC reports "Invariant AtMostOneSuccess is violated". With Reclaim = FALSE: no error.
-\*   tlc -workers 8 -config ConnCode_reclaim.cfg ConnCode.tla
+\*   tlc -workers 8 -config ConnCode_show_reclaim.cfg ConnCode.tla
 CONSTANTS
   Acts = {"a1", "a2"}
   HasRev = FALSE
@@ -18,6 +18,8 @@ CONSTANTS
   SameAs = {"a2"}
   Reclaim = TRUE
   ResetOnFail = FALSE
+  ResetCreate = FALSE
+  RelScope = "fail"
   CanTick = FALSE
   ShortClaim = FALSE
   Emit = FALSE
